@@ -149,6 +149,11 @@ class Types:
         if t in self.typemap:
             self.fired['type:typemap'] += 1
             return self.typemap[t]
+        if t.startswith('__gnu_cxx::__normal_iterator<') or re.match(r'^(std::)?vector<.*>::(const_)?iterator$', t):
+            # an iterator into a vector is rendered as the POSITION it designates (end() == size); only iterators obtained from
+            # find(vector, value) are accepted (var_decl), every use goes through iter_* below
+            self.fired['type:vector-iterator-as-position'] += 1
+            return 'size_t'
         if t in SCALARS:
             return SCALARS[t]
         if t.endswith('*'):
@@ -710,10 +715,50 @@ class Printer:
                     return self.e(a['inner'][2])
         self.brk('iterator expression not of the form begin()+i', a)
 
+    def is_iter_type(self, q, d=None):
+        for t_ in (q, d):
+            t_ = Types.strip(t_ or '')
+            if t_.startswith('__gnu_cxx::__normal_iterator<') or re.match(r'^(std::)?vector<.*>::(const_)?iterator$', t_):
+                return True
+        return False
+
+    def iter_strip(self, x):
+        while x.get('kind') in ('ImplicitCastExpr', 'ParenExpr', 'ExprWithCleanups', 'MaterializeTemporaryExpr', 'CXXBindTemporaryExpr') and x.get('inner') or \
+                (x.get('kind') == 'CXXConstructExpr' and len(x.get('inner', [])) == 1):
+            x = x['inner'][0]
+        return x
+
+    def iter_local(self, x):
+        """(name, vector text) when x is an iterator local obtained from find(), else None"""
+        x = self.iter_strip(x)
+        if x.get('kind') == 'DeclRefExpr' and x.get('referencedDecl', {}).get('id') in getattr(self, 'iter_vec', {}):
+            return x['referencedDecl']['name'], self.iter_vec[x['referencedDecl']['id']]
+        return None
+
+    def iter_bound(self, x, which):
+        """text of V when x is V.begin() / V.end() (or cbegin/cend), else None"""
+        x = self.iter_strip(x)
+        if x.get('kind') == 'CXXMemberCallExpr' and x.get('inner') and x['inner'][0].get('name') in (which, 'c' + which) and x['inner'][0].get('inner'):
+            return self.e(x['inner'][0]['inner'][0])
+        return None
+
     def operator_call(self, n):
         I = n['inner']
         f = self.callee_decl(I[0])
         opn = f.get('referencedDecl', {}).get('name') or f.get('name')
+        if opn in ('operator!=', 'operator==') and len(I) == 3 and (self.iter_local(I[1]) or self.iter_local(I[2])):
+            a_, b_ = (I[1], I[2]) if self.iter_local(I[1]) else (I[2], I[1])
+            nm_, v_ = self.iter_local(a_)
+            if self.iter_bound(b_, 'end') == v_:
+                self.fire('iter:compare-with-end')
+                return '(%s %s %s.size)' % (nm_, '!=' if opn == 'operator!=' else '==', v_)
+            self.brk('iterator compared with something else than end() of its own vector', n)
+        if opn == 'operator*' and len(I) == 2 and self.iter_local(I[1]):
+            nm_, v_ = self.iter_local(I[1])
+            self.fire('iter:deref')
+            return '%s.data[%s]' % (v_, nm_)
+        if len(I) >= 2 and any(self.is_iter_type(*self.qt(x)) for x in I[1:]):
+            self.brk('iterator expression out of reach', n)
         if opn == 'operator[]' and self.is_vec_expr(I[1]):
             self.fire('vec:subscript')
             return '%s.data[%s]' % (self.e(I[1]), self.e(I[2]))
@@ -799,6 +844,12 @@ class Printer:
             self.called[fn] += 1
             self.fire('call:std-sort')
             return '%s(&%s)' % (fn, self.e(vb))
+        if nm == 'distance' and len(args) == 2 and self.iter_local(args[1]):
+            nm_, v_ = self.iter_local(args[1])
+            if self.iter_bound(args[0], 'begin') == v_:
+                self.fire('iter:distance-from-begin')
+                return '((int64_t)%s)' % nm_
+            self.brk('std::distance not from begin() of the iterator\'s own vector', n)
         if nm in ('max', 'min') and len(args) == 0:
             ct = self.ctype_of(n)
             lim = {'uint8_t': ('0', '255'), 'uint16_t': ('0', '65535'), 'uint32_t': ('0u', '4294967295u'), 'uint64_t': ('0ull', '18446744073709551615ull'),
@@ -898,6 +949,24 @@ class Printer:
         init = [c for c in v.get('inner', []) if c.get('kind') not in ('FullComment',)]
         isvec = self.T.is_vec(q, d)
         ct = self.T.c(q, d)
+        if self.is_iter_type(q, d):
+            c = self.iter_strip(init[0]) if init else {}
+            if c.get('kind') == 'CallExpr' and c.get('inner'):
+                f_ = self.callee_decl(c['inner'][0])
+                a_ = [x for x in c['inner'][1:] if x.get('kind') != 'CXXDefaultArgExpr']
+                if (f_.get('referencedDecl', {}).get('name') or f_.get('name')) == 'find' and len(a_) == 2 and self.is_vec_expr(a_[0]):
+                    if not self.unit.get('unwind'):
+                        self.brk('find() over a vector needs a bounded unit (the search loop is executed)', v)
+                    vt_ = self.ctype_of(a_[0])
+                    vtxt = self.e(a_[0])
+                    if not hasattr(self, 'iter_vec'):
+                        self.iter_vec = {}
+                    self.iter_vec[v['id']] = vtxt
+                    fn = '%s_find' % vt_
+                    self.called[fn] += 1
+                    self.fire('iter:find-as-position')
+                    return t + 'size_t %s = %s(&%s, %s);\n' % (name, fn, vtxt, self.e(self.skip(a_[1])))
+            self.brk('iterator local not initialised by find(vector, value)', v)
         if self.T.is_ref(q):
             self.decl_ref[v['id']] = True
             self.fire('decl:local-reference')
